@@ -266,6 +266,17 @@ fn check_mutated(e: &adblock::Engine, r: &mut Rng) -> Out {
         if !rq.hostname.is_ascii() {
             out.viol.push(("C12:hostname-not-ascii".into(), json!({"url": url, "normalised": rq.url, "hostname": rq.hostname})));
         }
+        // second opinion on authority splitting (userinfo, backslashes): for http(s)/ws(s) URLs that
+        // the url crate accepts with a *domain* host, the hosts must agree
+        if (url.contains('\\') || url.contains('@')) && !url.contains('%') && !url.contains(|c: char| c == '\t' || c == '\n' || c == '\r') && (url.starts_with("http") || url.starts_with("ws")) {
+            if let Ok(u) = url::Url::parse(&url) {
+                if let Some(url::Host::Domain(d)) = u.host() {
+                    if matches!(u.scheme(), "http" | "https" | "ws" | "wss") && !d.eq_ignore_ascii_case(&rq.hostname) {
+                        out.viol.push(("C12:hostname-differs-from-url-crate".into(), json!({"url": url, "normalised": rq.url, "hostname": rq.hostname, "url_crate_host": d})));
+                    }
+                }
+            }
+        }
         let scheme = rq.url.split(':').next().unwrap_or("").to_string();
         if rq.is_supported != supported(&scheme) {
             out.viol.push(("C12:is_supported-misclassified".into(), json!({"url": url, "normalised": rq.url, "is_supported": rq.is_supported})));
@@ -298,7 +309,7 @@ fn check_mutated(e: &adblock::Engine, r: &mut Rng) -> Out {
 
 pub fn run(ctx: &mut Ctx) {
     let e = build_engine(&battery_rules(), ParseOptions::default(), true, true);
-    for (sub, cases) in [("plain", ctx.n(400_000, 6_000_000)), ("mutated", ctx.n(400_000, 6_000_000))] {
+    for (sub, cases) in [("plain", ctx.n(400_000, 20_000_000)), ("mutated", ctx.n(400_000, 20_000_000))] {
         for idx in 0..cases {
             if ctx.stop() {
                 break;
